@@ -62,9 +62,18 @@ def main():
                 pm = re.search(r"(?m)^package (\w+)", txt)
                 if pm:
                     want = pm.group(1).replace("_test", "")
+                    found = False
                     for cand in pk:
                         if os.path.basename(cand.rstrip("/")) == want:
                             tdir = os.path.join(wt, cand)
+                            found = True
+                    if not found:
+                        # the demo lives in another package than the one patched: locate it by name,
+                        # preferring directories near the patched ones
+                        cands = [d for d, _, fs in os.walk(wt) if os.path.basename(d) == want and any(f.endswith(".go") for f in fs)]
+                        cands.sort(key=lambda d: (0 if any(d.startswith(os.path.join(wt, c.strip("./").split("/")[0])) for c in pk) else 1, len(d)))
+                        if cands:
+                            tdir = cands[0]
                 shutil.copy(demo_test, os.path.join(tdir, "zz_seed_demo_test.go"))
                 return "go test -count=1 -run 'Demo|Seed|Test' -timeout 120s ./%s/ 2>&1 | tail -30; exit ${PIPESTATUS[0]}" % os.path.relpath(tdir, wt), tdir
             elif os.path.isdir(demo_dir):
@@ -107,8 +116,15 @@ def main():
         # the pinned suite = the stable_pass list of /root/.vp/BASELINE.json; every stable test of the
         # affected packages must still pass (tests that already fail/hang at baseline are ignored)
         stable = json.load(open("/root/.vp/BASELINE.json"))["stable_pass"]
-        tcmd = "go test -json -vet=off -count=1 -timeout 20m %s" % " ".join(pk)
-        p = subprocess.run(tcmd, cwd=wt, shell=True, env=ENV, capture_output=True, text=True, timeout=1500)
+        pkgnames = ["github.com/pinealctx/neptune/" + x.strip("./") for x in pk]
+        want = [t for t in stable if t.split("::")[0] in pkgnames]
+        names = sorted(set(t.split("::")[1].split("/")[0] for t in want))
+        if names:
+            tcmd = "go test -json -vet=off -count=1 -timeout 25m -run '^(%s)$' %s" % ("|".join(names), " ".join(pk))
+            p = subprocess.run(tcmd, cwd=wt, shell=True, env=ENV, capture_output=True, text=True, timeout=1800)
+        else:
+            tcmd = "(no test of these packages is in the pinned stable suite; go build + go vet only)"
+            p = subprocess.run("true", shell=True, capture_output=True, text=True)
         passed = set()
         for l in p.stdout.splitlines():
             try:
@@ -117,8 +133,6 @@ def main():
                 continue
             if e.get("Action") == "pass" and e.get("Test"):
                 passed.add(e["Package"] + "::" + e["Test"])
-        pkgnames = ["github.com/pinealctx/neptune/" + x.strip("./") for x in pk]
-        want = [t for t in stable if t.split("::")[0] in pkgnames]
         missing = [t for t in want if t not in passed]
         rc2 = 0 if not missing else 1
         res["existing_tests_cmd"] = tcmd + "   (judged on the stable_pass tests of BASELINE.json for these packages)"
